@@ -10,6 +10,7 @@ import (
 	"runtime"
 	"runtime/debug"
 	"sort"
+	"strconv"
 	"strings"
 	"sync"
 	"time"
@@ -37,6 +38,13 @@ type scenario struct {
 	Sp      []splice `json:"sp"`
 	Measure bool     `json:"measure"`
 	Inner   bool     `json:"inner"` // splice the Certificate message BEFORE the server compresses it (the message inside CompressedCertificate)
+	Kind    string   `json:"kind"`  // "" / mut / base: message splices; "rec": a raw record; "post": post-handshake phase
+	Rec     struct {
+		Where string `json:"where"` // replace: in place of this side's record number Index; after: right after the handshake completed
+		Index int    `json:"index"`
+		Raw   []int  `json:"raw"`
+	} `json:"rec"`
+	Post postSpec `json:"post"`
 }
 
 type flightCase struct {
@@ -178,6 +186,8 @@ type connObs struct {
 	Client, Server sideObs
 	CMsgs, SMsgs   [][]byte
 	SInner         [][]byte // per server message: the plaintext Certificate message it was compressed from (else empty)
+	CRecs, SRecs   [][]int  // [content type, length] of every record each side put on the wire
+	RepHdr         []int    // header of the record a raw record was sent in place of
 	Rec0           []byte // first record the client wrote
 	Applied, Fit   bool
 	Orig, Mut      []byte
@@ -222,9 +232,12 @@ func guard(o *sideObs, f func() (string, error)) {
 
 var ping, pong = []byte("ping"), []byte("pong")
 
-func clientFlow(uc *tls.UConn, cku bool) (string, error) {
+func clientFlow(uc *tls.UConn, cku bool, after func()) (string, error) {
 	if err := uc.Handshake(); err != nil {
 		return "handshake", err
+	}
+	if after != nil {
+		after()
 	}
 	if cku && uc.ConnectionState().Version == tls.VersionTLS13 {
 		if err := tls.VerifFlightSendKeyUpdate(uc.Conn, true); err != nil {
@@ -241,9 +254,12 @@ func clientFlow(uc *tls.UConn, cku bool) (string, error) {
 	return "read", nil
 }
 
-func serverFlow(srv *tls.Conn, sku bool) (string, error) {
+func serverFlow(srv *tls.Conn, sku bool, after func()) (string, error) {
 	if err := srv.Handshake(); err != nil {
 		return "handshake", err
+	}
+	if after != nil {
+		after()
 	}
 	if sku && srv.ConnectionState().Version == tls.VersionTLS13 {
 		if err := tls.VerifFlightSendKeyUpdate(srv, true); err != nil {
@@ -288,6 +304,14 @@ func (e *runEnv) configs(cs flightCase) (*tls.Config, *tls.Config) {
 	if cs.has("hrr") {
 		scfg.CurvePreferences = []tls.CurveID{tls.CurveP384}
 	}
+	for _, f := range cs.Flags {
+		// cs=c02f: the server offers exactly this TLS <= 1.2 cipher suite
+		if strings.HasPrefix(f, "cs=") {
+			if v, err := strconv.ParseUint(f[3:], 16, 16); err == nil {
+				scfg.CipherSuites = []uint16{uint16(v)}
+			}
+		}
+	}
 	if cs.has("psk") {
 		ccfg.ClientSessionCache = tls.NewLRUClientSessionCache(4)
 	}
@@ -331,7 +355,7 @@ func (e *runEnv) once(cs flightCase, scn *scenario) (o connObs) {
 		cap = e.caps[cs.Name]
 	}
 	rewrite := func(side string, idx int, data []byte) []byte {
-		if scn == nil || scn.Side != side || scn.Msg < 0 {
+		if scn == nil || scn.Side != side || scn.Msg < 0 || scn.Kind == "rec" || scn.Kind == "post" {
 			return data
 		}
 		if scn.Mode == "replace" {
@@ -400,22 +424,48 @@ func (e *runEnv) once(cs flightCase, scn *scenario) (o connObs) {
 	defer tls.VerifFlightClearOverride(scfg)
 	defer tls.VerifFlightClearOverride(ccfg)
 
-	c, s := hlib.BufPipe()
+	c0, s0 := hlib.BufPipe()
+	c, s := wrap(c0), wrap(s0)
 	dl := time.Now().Add(e.deadline)
 	c.SetDeadline(dl)
 	s.SetDeadline(dl)
+	// a raw record (bytes chosen by TLC) in place of one of this side's records, or right after its handshake
+	var afterC, afterS func()
+	if scn != nil && scn.Kind == "rec" {
+		w, raw := c, hlib.Unints(scn.Rec.Raw)
+		if scn.Side == "s" {
+			w = s
+		}
+		o.Orig, o.Mut, o.Fit = []byte{}, raw, true
+		if scn.Rec.Where == "replace" {
+			w.repIdx, w.rep = scn.Rec.Index, raw
+		} else {
+			f := func() {
+				if _, err := w.BufConn.Write(raw); err == nil {
+					mu.Lock()
+					o.Applied = true
+					mu.Unlock()
+				}
+			}
+			if scn.Side == "s" {
+				afterS = f
+			} else {
+				afterC = f
+			}
+		}
+	}
 	var co, so sideObs
 	cdone, sdone := make(chan struct{}), make(chan struct{})
 	go func() {
 		defer close(sdone)
-		guard(&so, func() (string, error) { return serverFlow(tls.Server(s, scfg), cs.has("sku")) })
+		guard(&so, func() (string, error) { return serverFlow(tls.Server(s, scfg), cs.has("sku"), afterS) })
 		s.CloseWrite()
 	}()
 	go func() {
 		defer close(cdone)
 		guard(&co, func() (string, error) {
 			uc := tls.UClient(c, ccfg, id)
-			st, err := clientFlow(uc, cs.has("cku"))
+			st, err := clientFlow(uc, cs.has("cku"), afterC)
 			if err == nil {
 				uc.Close()
 			}
@@ -469,7 +519,17 @@ func (e *runEnv) once(cs flightCase, scn *scenario) (o connObs) {
 	}
 	mu.Lock()
 	o.Client, o.Server = co, so
+	if scn != nil && scn.Kind == "rec" && scn.Rec.Where == "replace" {
+		w := c
+		if scn.Side == "s" {
+			w = s
+		}
+		w.mu.Lock()
+		o.Applied, o.RepHdr = w.repDone && !w.odd, w.repHdr
+		w.mu.Unlock()
+	}
 	mu.Unlock()
+	o.CRecs, o.SRecs = recHeaders(c.Written()), recHeaders(s.Written())
 	if recs := hlib.Records(c.Written()); len(recs) > 0 {
 		w := c.Written()
 		o.Rec0 = w[:5+len(recs[0].Payload)]
@@ -487,12 +547,12 @@ func (e *runEnv) plain(id tls.ClientHelloID, ccfg, scfg *tls.Config) string {
 	done := make(chan struct{})
 	go func() {
 		defer close(done)
-		guard(&so, func() (string, error) { return serverFlow(tls.Server(s, scfg), false) })
+		guard(&so, func() (string, error) { return serverFlow(tls.Server(s, scfg), false, nil) })
 		s.CloseWrite()
 	}()
 	guard(&co, func() (string, error) {
 		uc := tls.UClient(c, ccfg, id)
-		st, err := clientFlow(uc, false)
+		st, err := clientFlow(uc, false, nil)
 		if err == nil {
 			uc.Close()
 		}
@@ -598,7 +658,7 @@ func init() {
 			cs := req.Cases[i/req.Repeat]
 			o := env.once(cs, nil)
 			res[i] = map[string]any{"ev": "Capture", "case": cs.Name, "parrot": cs.Parrot, "flags": append([]string{}, cs.Flags...), "run": i % req.Repeat,
-				"c": intsList(o.CMsgs), "s": intsList(o.SMsgs), "s_inner": intsList(o.SInner), "rec0": hlib.Ints(o.Rec0),
+				"c": intsList(o.CMsgs), "s": intsList(o.SMsgs), "s_inner": intsList(o.SInner), "c_recs": o.CRecs, "s_recs": o.SRecs, "rec0": hlib.Ints(o.Rec0),
 				"client": sideEv(o.Client, o.Server), "server": sideEv(o.Server, o.Client), "prime_err": o.PrimeErr, "deadline_ms": int(env.deadline / time.Millisecond)}
 		})
 		for _, e := range res {
@@ -634,6 +694,24 @@ func init() {
 				runtime.GC()
 				runtime.ReadMemStats(&m0)
 			}
+			if sc.Kind == "post" {
+				po := env.oncePost(cs, sc.Post)
+				agg := sideObs{Outcome: "ok", Stage: "post"}
+				for _, c := range po.Calls {
+					if c.RetMs > agg.ElapsedMs {
+						agg.ElapsedMs = c.RetMs
+					}
+					if c.Outcome != "ok" && (agg.Outcome == "ok" || agg.Outcome == "error") {
+						agg.Outcome, agg.Err, agg.Panic, agg.PanicAt = c.Outcome, c.Call+": "+c.Err, c.Panic, c.PanicAt
+					}
+				}
+				res[i] = map[string]any{"ev": "Run", "sid": sc.Sid, "case": sc.Case, "side": sc.Side, "msg": sc.Msg, "mode": sc.Mode, "kind": "post",
+					"applied": po.Ready, "fit": true, "orig": []int{}, "orig_len": 0, "orig_sum": 0, "mut_len": 0, "mut_sum": 0,
+					"client": sideEv(agg, sideObs{}), "server": sideEv(sideObs{Outcome: "ok"}, sideObs{}), "released": false, "prime_err": "",
+					"deadline_ms": po.Deadline, "alloc_kb": -1, "serial": req.Serial, "nc": 0, "ns": 0,
+					"ready": po.Ready, "sent": po.Sent, "sent_err": po.SentErr, "transport": sc.Post.Transport, "calls": po.Calls, "post_err": po.Err}
+				return
+			}
 			o := env.once(cs, &sc)
 			allocKB := -1
 			if req.Serial {
@@ -649,7 +727,7 @@ func init() {
 				"mut_len": len(o.Mut), "mut_sum": digest(o.Mut),
 				"client": sideEv(o.Client, o.Server), "server": sideEv(o.Server, o.Client), "released": o.Released, "prime_err": o.PrimeErr,
 				"deadline_ms": int(env.deadline / time.Millisecond), "alloc_kb": allocKB, "serial": req.Serial,
-				"nc": len(o.CMsgs), "ns": len(o.SMsgs)}
+				"nc": len(o.CMsgs), "ns": len(o.SMsgs), "kind": sc.Kind, "rep_hdr": append([]int{}, o.RepHdr...)}
 		}
 		if req.Serial {
 			for i := range req.Scenarios {
